@@ -746,6 +746,9 @@ fn scenario(ctx: &mut Ctx, rng: &mut Rng, thorough: bool, idx: u64) {
     // ---- per-key replication factor from the real AdaptiveReplicationManager (hot keys get hot_key_rf)
     if rng.chance(1, 3) {
         adaptive_ops(ctx, rng, &ring, &members, vnodes, &keys, idx);
+        if rng.chance(1, 3) {
+            adaptive_session(ctx, rng, None);
+        }
     }
     // ---- GossipState as a state machine (direct and through the GossipActor)
     if rng.chance(1, 4) && !members.is_empty() {
@@ -917,8 +920,12 @@ fn adaptive_ops(ctx: &mut Ctx, rng: &mut Rng, ring: &HashRing, members: &[u64], 
     };
     cfg.hotkey_config.hot_threshold = 1.0;
     cfg.recalc_interval_ms = if rng.chance(1, 2) { 1 } else { u64::MAX };
-    let (base, hot) = (cfg.base_rf, cfg.hot_key_rf);
+    let (base, configured_hot) = (cfg.base_rf, cfg.hot_key_rf);
     let mut mgr = AdaptiveReplicationManager::new(cfg);
+    let hot = mgr.stats().hot_rf; // the factor in effect: configured, or raised to base_rf by the constructor
+    if hot != configured_hot && hot != configured_hot.max(base) {
+        ctx.out.violation("C19:adaptive:hot-rf-in-effect", "stats().hot_rf is neither the configured hot_key_rf nor max(hot_key_rf, base_rf)", json!({"base_rf": base, "hot_key_rf": configured_hot, "stats.hot_rf": hot}));
+    }
     let hot_keys: Vec<&String> = keys.iter().filter(|_| rng.chance(1, 3)).collect();
     let mut now = 1_000u64;
     for _ in 0..40 {
@@ -933,7 +940,7 @@ fn adaptive_ops(ctx: &mut Ctx, rng: &mut Rng, ring: &HashRing, members: &[u64], 
     mgr.force_recalculate(now);
     let overrides: BTreeMap<String, u8> = mgr.get_hot_key_updates().into_iter().collect();
     ctx.out.count(&format!("adaptive:hot-keys:{}", match overrides.len() { 0 => "0", 1..=3 => "1-3", _ => "4+" }));
-    ctx.out.count(&format!("adaptive:{}", if hot > base { "hot_rf>base_rf" } else if hot == base { "hot_rf=base_rf" } else { "hot_rf<base_rf" }));
+    ctx.out.count(&format!("adaptive:{}", if configured_hot > base { "hot_rf>base_rf" } else if configured_hot == base { "hot_rf=base_rf" } else { "hot_rf<base_rf" }));
     // ARF <base> <hot> <nhot> <hot keypos>* <m> <keypos>*
     let mut l = format!("ARF {} {} {}", base, hot, overrides.len());
     for k in overrides.keys() {
@@ -953,6 +960,12 @@ fn adaptive_ops(ctx: &mut Ctx, rng: &mut Rng, ring: &HashRing, members: &[u64], 
                 json!({"key": k, "rf": rf, "base_rf": base, "hot_key_rf": hot, "hot_keys": overrides.keys().collect::<Vec<_>>()}));
         }
         check_count(&mut ctx.out, &reps, rf as usize, members, vnodes, json!({"api": "get_replicas_with_rf(key, AdaptiveReplicationManager::get_rf_for_key(key))", "key": k, "rf": rf, "replicas": reps, "case": idx}));
+        // a hot key must not LOSE owners: hot_key_rf < base_rf (accepted by AdaptiveConfig) does that
+        if overrides.contains_key(k) && reps.len() < base_reps.len() {
+            ctx.out.violation(SIG_HOT_BELOW_BASE,
+                &format!("AdaptiveConfig {{ base_rf: {}, hot_key_rf: {} }}: key {:?} became hot and get_rf_for_key answers {}: get_replicas_with_rf gives {:?} instead of the {:?} of base_rf — the adaptive change shrinks the replica set below the configured factor", base, hot, k, rf, reps, base_reps),
+                json!({"base_rf": base, "hot_key_rf": hot, "key": k, "rf": rf, "replicas": reps, "base_replicas": base_reps, "members": members}));
+        }
         // promotion only adds owners / demotion only drops the added ones: the shorter list is a prefix
         let (short, long) = if reps.len() <= base_reps.len() { (&reps, &base_reps) } else { (&base_reps, &reps) };
         if long[..short.len()] != short[..] {
@@ -968,6 +981,178 @@ fn adaptive_ops(ctx: &mut Ctx, rng: &mut Rng, ring: &HashRing, members: &[u64], 
     if n_hot != overrides.len() || mgr.hot_key_count() != 0 || keys.iter().any(|k| mgr.get_rf_for_key(k) != base) {
         ctx.out.violation("C19:adaptive:clear-leaves-overrides", "after clear() a key still has an RF override (or hot_key_count disagrees with the override table)", json!({"base_rf": base, "hot_key_rf": hot}));
     }
+}
+
+const SIG_HOT_BELOW_BASE: &str = "C19:adaptive:config:hot_key_rf<base_rf:hot-key-loses-owners";
+
+/// corpus case, runs first on every run: base_rf 3, hot_key_rf 1 on a three-node ring — the key
+/// that becomes hot keeps one of its three owners
+fn witness_adaptive_hot_below_base(ctx: &mut Ctx) {
+    use redis_sim::production::{AdaptiveConfig, AdaptiveReplicationManager, HotKeyConfig};
+    let members = [1u64, 2, 3];
+    let ring = ctx.op_new(&members, 50, 3);
+    let keys: Vec<String> = vec!["hot".into(), "cold".into()];
+    ctx.op_key_positions(&keys);
+    let cfg = AdaptiveConfig { base_rf: 3, hot_key_rf: 1, recalc_interval_ms: 1_000_000,
+        hotkey_config: HotKeyConfig { window_ms: 10_000, hot_threshold: 100.0, cleanup_interval_ms: 5_000, max_tracked_keys: 10_000 } };
+    let mut mgr = AdaptiveReplicationManager::new(cfg);
+    ctx.out.op("ADNEW 3 1 1000000 10000 100 5000 10000".into(), ad_summary(&mgr));
+    for i in 0..21u64 {
+        mgr.observe("hot", false, 1000 + i * 5);
+        ctx.out.op(format!("ADOBS {} 0 {}", crate::enc::hex(b"hot"), 1000 + i * 5), ad_summary(&mgr));
+    }
+    mgr.observe("cold", true, 1100);
+    ctx.out.op(format!("ADOBS {} 1 1100", crate::enc::hex(b"cold")), ad_summary(&mgr));
+    mgr.force_recalculate(1100);
+    ctx.out.op("ADRECALC 1100".into(), ad_summary(&mgr));
+    let rf = mgr.get_rf_for_key("hot");
+    ctx.out.op(format!("ADQ 1100 2 {} {}", crate::enc::hex(b"hot"), crate::enc::hex(b"cold")),
+        format!("aq {}:{}|{}:{}", rf, mgr.is_hot("hot", 1100) as u8, mgr.get_rf_for_key("cold"), mgr.is_hot("cold", 1100) as u8));
+    let one = vec![keys[0].clone()];
+    let reps = ctx.op_replicas(&ring, &one, Some(rf as usize));
+    let base_reps = ctx.op_replicas(&ring, &one, Some(3));
+    if reps[0].len() < base_reps[0].len() {
+        ctx.out.violation(SIG_HOT_BELOW_BASE,
+            &format!("AdaptiveConfig {{ base_rf: 3, hot_key_rf: 1 }} on the ring {{1, 2, 3}}: 21 reads of \"hot\" in 100 ms, force_recalculate: get_rf_for_key(\"hot\") = {}, get_replicas_with_rf = {:?} instead of {:?}", rf, reps[0], base_reps[0]),
+            json!({"base_rf": 3, "hot_key_rf": 1, "key": "hot", "rf": rf, "replicas": reps[0], "base_replicas": base_reps[0]}));
+    }
+}
+
+/// summary of a real AdaptiveReplicationManager, as the model prints it (`showAd`)
+fn ad_summary(mgr: &redis_sim::production::AdaptiveReplicationManager) -> String {
+    let st = mgr.stats();
+    let mut ov: Vec<(String, u8)> = mgr.get_hot_key_updates();
+    ov.sort_by(|a, b| (a.0.len(), a.0.as_bytes()).cmp(&(b.0.len(), b.0.as_bytes())));
+    format!("ad rf={}/{} tracked={} hot={} prom={} dem={} ov={}", st.base_rf, st.hot_rf, st.tracked_keys, st.current_hot_keys, st.total_promotions, st.total_demotions,
+        ov.iter().map(|(k, rf)| format!("{}:{}", crate::enc::hex(k.as_bytes()), rf)).collect::<Vec<_>>().join(","))
+}
+
+/// AdaptiveReplicationManager + HotKeyDetector as a state machine (`AD*` ops; model
+/// `Adaptive.Mgr`): every configuration field generated incl. 0 / 1 / large, a small key pool so
+/// that the table capacity, the clean-up window and the periodic recalculation are all crossed,
+/// clock steps 0 / 1 / small / large / BACKWARDS, and `now` values placed just below / at / just
+/// above the hot threshold of a key (`total * 1000 = threshold * (now - first)`), computed from a
+/// shadow of the access table.  Integer thresholds ≤ 2^20 and 32-bit clocks: the domain on which the
+/// model's integer comparison is exactly the code's f64 comparison.
+/// Oracle (real code only): every override equals hot_key_rf; get_rf_for_key is hot_key_rf exactly
+/// for the overridden keys and base_rf otherwise; after force_recalculate(now) the overridden keys
+/// are exactly the keys with is_hot(key, now); the table never exceeds max_tracked_keys.
+fn adaptive_session(ctx: &mut Ctx, rng: &mut Rng, fixed: Option<(u8, u8)>) {
+    use redis_sim::production::{AdaptiveConfig, AdaptiveReplicationManager, HotKeyConfig};
+    let (base, hot) = match fixed {
+        Some(x) => x,
+        None => (rng.below(6) as u8, rng.below(8) as u8),
+    };
+    let recalc = *rng.pick(&[0u64, 1, 50, 1000, 1 << 40]);
+    let window = *rng.pick(&[0u64, 10, 100, 1000, 10_000]);
+    let threshold = *rng.pick(&[0u64, 1, 2, 10, 100, 100, 1000, 1 << 20]);
+    let cleanup = *rng.pick(&[0u64, 1, 50, 5000]);
+    let max_tracked = *rng.pick(&[0usize, 1, 2, 3, 10_000, 10_000]);
+    let cfg = AdaptiveConfig { base_rf: base, hot_key_rf: hot, recalc_interval_ms: recalc,
+        hotkey_config: HotKeyConfig { window_ms: window, hot_threshold: threshold as f64, cleanup_interval_ms: cleanup, max_tracked_keys: max_tracked } };
+    let mut mgr = AdaptiveReplicationManager::new(cfg);
+    ctx.out.op(format!("ADNEW {} {} {} {} {} {} {}", base, hot, recalc, window, threshold, cleanup, max_tracked), ad_summary(&mgr));
+    // the hot-key factor IN EFFECT (the configured one; or raised to base_rf by the constructor): the
+    // model says which (Adaptive.effHot), the oracle below takes it from stats()
+    let configured_hot = hot;
+    let hot = mgr.stats().hot_rf;
+    if hot != configured_hot && hot != configured_hot.max(base) {
+        ctx.out.violation("C19:adaptive:hot-rf-in-effect", "stats().hot_rf is neither the configured hot_key_rf nor max(hot_key_rf, base_rf)", json!({"base_rf": base, "hot_key_rf": configured_hot, "stats.hot_rf": hot}));
+    }
+    ctx.out.count(&format!("adsession:{}", if configured_hot > base { "hot_rf>base_rf" } else if configured_hot == base { "hot_rf=base_rf" } else { "hot_rf<base_rf" }));
+    ctx.out.count(&format!("adsession:max_tracked:{}", match max_tracked { 0 => "0", 1..=3 => "1-3", _ => "ample" }));
+    let pool: Vec<String> = vec!["a".into(), "b".into(), "hot:1".into(), "".into(), "k\u{e9}y".into(), "zz".into()];
+    let mut shadow: BTreeMap<String, (u64, u64)> = BTreeMap::new(); // key -> (first, total), approximate
+    let mut now: u64 = rng.range(0, 2000);
+    let check = |ctx: &mut Ctx, mgr: &AdaptiveReplicationManager, what: &str| {
+        let ov: BTreeMap<String, u8> = mgr.get_hot_key_updates().into_iter().collect();
+        let st = mgr.stats();
+        if ov.values().any(|rf| *rf != hot) {
+            ctx.out.violation("C19:adaptive:override-not-hot-rf", "an RF override differs from hot_key_rf", json!({"after": what, "overrides": ov, "hot_key_rf": hot}));
+        }
+        for k in &pool {
+            let rf = mgr.get_rf_for_key(k);
+            if rf != if ov.contains_key(k) { hot } else { base } {
+                ctx.out.violation("C19:adaptive:rf-not-base-or-hot", &format!("get_rf_for_key({:?}) = {} (base_rf {}, hot_key_rf {}, override: {})", k, rf, base, hot, ov.contains_key(k)),
+                    json!({"after": what, "key": k, "rf": rf, "base_rf": base, "hot_key_rf": hot}));
+            }
+        }
+        if st.tracked_keys > max_tracked || st.current_hot_keys != ov.len() || mgr.hot_key_count() != ov.len() || st.base_rf != base || st.hot_rf != hot {
+            ctx.out.violation("C19:adaptive:capacity-or-stats", "tracked_keys exceeds max_tracked_keys, or stats() / hot_key_count() disagree with the override table / the configuration",
+                json!({"after": what, "tracked": st.tracked_keys, "max_tracked_keys": max_tracked, "current_hot_keys": st.current_hot_keys, "overrides": ov.len()}));
+        }
+    };
+    let nsteps = rng.range(15, 50);
+    for _ in 0..nsteps {
+        // the clock
+        now = match rng.below(12) {
+            0 => now,
+            1 | 2 => now + 1,
+            3 | 4 | 5 => now + rng.range(2, 20),
+            6 | 7 => now + rng.range(21, 400),
+            8 => now + rng.range(401, 20_000),
+            9 => now.saturating_sub(rng.range(1, 300)), // the clock goes backwards
+            _ => {
+                // just below / at / just above the hot threshold of a tracked key
+                match (shadow.iter().nth(rng.below(shadow.len().max(1) as u64) as usize), threshold) {
+                    (Some((_, (first, total))), t) if t > 0 => {
+                        let d = total * 1000 / t;
+                        let target = first + d;
+                        ctx.out.count("adsession:clock:at-the-threshold-of-a-key");
+                        match rng.below(3) { 0 => target.saturating_sub(1), 1 => target, _ => target + 1 }
+                    }
+                    _ => now + 3,
+                }
+            }
+        }
+        .min(u32::MAX as u64);
+        match rng.below(10) {
+            0..=5 => {
+                let k = rng.pick(&pool).clone();
+                let w = rng.chance(1, 2);
+                // a burst makes a key hot at the common thresholds
+                let n = if rng.chance(1, 4) { rng.range(5, 40) } else { 1 };
+                for _ in 0..n {
+                    mgr.observe(&k, w, now);
+                    ctx.out.op(format!("ADOBS {} {} {}", crate::enc::hex(k.as_bytes()), w as u8, now), ad_summary(&mgr));
+                    let e = shadow.entry(k.clone()).or_insert((now, 0));
+                    e.1 += 1;
+                }
+                check(ctx, &mgr, "observe");
+            }
+            6 | 7 => {
+                mgr.force_recalculate(now);
+                ctx.out.op(format!("ADRECALC {}", now), ad_summary(&mgr));
+                check(ctx, &mgr, "force_recalculate");
+                let ov: BTreeSet<String> = mgr.get_hot_key_updates().into_iter().map(|x| x.0).collect();
+                let hot_now: BTreeSet<String> = pool.iter().filter(|k| mgr.is_hot(k, now)).cloned().collect();
+                if ov != hot_now {
+                    ctx.out.violation("C19:adaptive:overrides-differ-from-hot-keys", "after force_recalculate(now) the overridden keys are not exactly the keys with is_hot(key, now)",
+                        json!({"now": now, "overrides": ov, "is_hot": hot_now}));
+                }
+                ctx.out.count(if ov.is_empty() { "adsession:recalc:no-hot-key" } else { "adsession:recalc:hot-keys" });
+            }
+            8 => {
+                mgr.clear();
+                shadow.clear();
+                ctx.out.op("ADCLEAR".into(), ad_summary(&mgr));
+                check(ctx, &mgr, "clear");
+            }
+            _ => {}
+        }
+        // query every key of the pool
+        let mut l = format!("ADQ {} {}", now, pool.len());
+        let mut a = Vec::new();
+        for k in &pool {
+            l.push_str(&format!(" {}", crate::enc::hex(k.as_bytes())));
+            a.push(format!("{}:{}", mgr.get_rf_for_key(k), mgr.is_hot(k, now) as u8));
+        }
+        ctx.out.op(l, format!("aq {}", a.join("|")));
+    }
+    let st = mgr.stats();
+    ctx.out.count(if st.total_promotions > 0 { "adsession:with-promotions" } else { "adsession:no-promotion" });
+    ctx.out.count(if st.total_demotions > 0 { "adsession:with-demotions" } else { "adsession:no-demotion" });
+    ctx.out.count(if st.tracked_keys == max_tracked && max_tracked <= 3 { "adsession:table-full-at-end" } else { "adsession:table-not-full-at-end" });
 }
 
 /// GossipState as a state machine: heartbeats, epochs, queue_deltas / queue_deltas_broadcast,
@@ -1170,11 +1355,12 @@ fn gossip_loop_ops(ctx: &mut Ctx, ring: &HashRing, members: &[u64], spec: &Route
             let handle = GossipActor::spawn_with_router(cfg.clone(), router);
             tokio::spawn(GossipManager::start_gossip_loop_with_actor(cfg.clone(), handle, collect))
         };
-        let done = tokio::time::timeout(std::time::Duration::from_secs(10), rx).await;
+        // generous: 12 builders share the machine; the deadline only ends a run whose loop never ticks
+        let done = tokio::time::timeout(std::time::Duration::from_secs(60), rx).await;
         task.abort();
         let _ = task.await; // the loop's persistent connections are dropped here
         if done.is_err() {
-            return Err("the loop did not come back for a second batch within 10 s".to_string());
+            return Err("the loop did not come back for a second batch within 60 s".to_string());
         }
         for (i, l) in listeners.iter().enumerate() {
             // a completed connect() is acceptable at once; the timeout only ends the scan
@@ -1347,6 +1533,70 @@ fn witness_from_config(ctx: &mut Ctx, rng: &mut Rng) {
     }
 }
 
+/// Two replica ids whose first virtual node has the SAME ring position: a real collision of
+/// `HashRing::hash_virtual_node` (SipHash-1-3, zero key, over `node as u64 LE ++ 0u32 LE`), found by
+/// a distinguished-point search; kernel-checked on the model's transcription of the hasher
+/// (`RedisVerif.C19.sip13_vnode_collision`).
+pub const COLL_A: u64 = 8995953703207198936;
+pub const COLL_B: u64 = 7408622316112464113;
+
+/// corpus case, runs first on every run: the same membership joined in two orders, with a real
+/// position collision between two virtual nodes.  `add_node` sorts by position only (stable), so
+/// the tie is broken by JOIN ORDER: two nodes that learnt the members in different orders hold
+/// different rings and disagree about the owners of the keys in front of the collided position.
+fn witness_position_collision(ctx: &mut Ctx) {
+    let sig = "C19:order:position-collision:join-order-decides";
+    // (a) the minimal membership: every key is owned by whoever joined first
+    let keys: Vec<String> = vec!["k".into(), "user:1".into(), "".into()];
+    ctx.op_key_positions(&keys);
+    let ra = ctx.op_new(&[COLL_A, COLL_B], 1, 1);
+    let reps_a = ctx.op_replicas(&ra, &keys, None);
+    let rb = ctx.op_new(&[COLL_B, COLL_A], 1, 1);
+    let reps_b = ctx.op_replicas(&rb, &keys, None);
+    let pa = ra.verif_ring_positions();
+    let pb = rb.verif_ring_positions();
+    if pa.len() != 2 || pa[0].0 != pa[1].0 {
+        ctx.out.violation("C19:harness:collision-witness-does-not-collide",
+            "the two replica ids of the corpus case no longer hash to one position: hash_virtual_node changed (find a new pair)",
+            json!({"a": COLL_A, "b": COLL_B, "ring": pa.iter().map(|x| json!([x.0.to_string(), x.1.to_string(), x.2])).collect::<Vec<_>>()}));
+        return;
+    }
+    ctx.out.count("order:position-collision:witness");
+    if pa != pb || reps_a != reps_b {
+        ctx.out.violation(sig,
+            &format!("HashRing::new(vec![A, B], 1, 1) and HashRing::new(vec![B, A], 1, 1) (A = {}, B = {}, hash_virtual_node(A, 0) = hash_virtual_node(B, 0) = {}) are different rings; get_replicas({:?}) = {:?} on the first and {:?} on the second",
+                COLL_A, COLL_B, pa[0].0, keys[0], reps_a[0], reps_b[0]),
+            json!({"nodes_a": [COLL_A.to_string(), COLL_B.to_string()], "nodes_b": [COLL_B.to_string(), COLL_A.to_string()], "vnodes": 1, "rf": 1,
+                   "position": pa[0].0.to_string(), "key": keys[0], "replicas_a": reps_a[0].iter().map(|x| x.to_string()).collect::<Vec<_>>(),
+                   "replicas_b": reps_b[0].iter().map(|x| x.to_string()).collect::<Vec<_>>()}));
+    }
+    // (b) a five-node cluster with the default settings (150 virtual nodes, rf 3): the keys whose
+    // clockwise walk starts at the collided position get the two nodes in join order
+    let members_a = [1u64, 2, 3, COLL_A, COLL_B];
+    let members_b = [1u64, 2, 3, COLL_B, COLL_A];
+    let da = HashRing::with_defaults(members_a.iter().map(|n| ReplicaId::new(*n)).collect());
+    let db = HashRing::with_defaults(members_b.iter().map(|n| ReplicaId::new(*n)).collect());
+    let hit = (0..400_000u32).map(|i| format!("key:{}", i)).find(|k| da.get_replicas(k) != db.get_replicas(k));
+    match hit {
+        Some(k) => {
+            let ks = vec![k.clone()];
+            ctx.op_key_positions(&ks);
+            let ra = ctx.op_new_defaults(&members_a);
+            let xa = ctx.op_replicas(&ra, &ks, None);
+            let rb = ctx.op_new_defaults(&members_b);
+            let xb = ctx.op_replicas(&rb, &ks, None);
+            ctx.out.count("order:position-collision:default-cluster-key-found");
+            if xa != xb {
+                ctx.out.violation(sig,
+                    &format!("HashRing::with_defaults over the members {{1, 2, 3, A, B}} joined as [1,2,3,A,B] and as [1,2,3,B,A]: get_replicas({:?}) = {:?} vs {:?}", k, xa[0], xb[0]),
+                    json!({"nodes_a": members_a.iter().map(|x| x.to_string()).collect::<Vec<_>>(), "nodes_b": members_b.iter().map(|x| x.to_string()).collect::<Vec<_>>(),
+                           "vnodes": 150, "rf": 3, "key": k}));
+            }
+        }
+        None => ctx.out.count("order:position-collision:default-cluster-no-key-in-400000"),
+    }
+}
+
 /// the coverage audit of C19 against the eleven classes of missed inputs (also DESIGN §4 C19 "coverage audit")
 fn audit() -> serde_json::Value {
     json!([
@@ -1378,11 +1628,20 @@ pub fn run(a: &Args) {
     let mut wr = Rng::new(7);
     ctx.op_sip(&mut wr, 40);
     witness_from_config(&mut ctx, &mut wr);
+    witness_position_collision(&mut ctx);
+    witness_adaptive_hot_below_base(&mut ctx);
+    {
+        // fixed adaptive sessions (own stream): base < hot, base = hot, base > hot
+        let mut ar = Rng::new(11);
+        for fx in [(3u8, 5u8), (2, 2), (3, 1), (0, 0)] {
+            adaptive_session(&mut ctx, &mut ar, Some(fx));
+        }
+    }
     gossip_loop_interval_probe(&mut ctx);
     config_shapes(&mut ctx);
     crate::srcscan::report(&mut ctx.out, "C19", "api_coverage(scanned from the source of the dependency)",
         &["src/replication/hash_ring.rs", "src/replication/gossip_router.rs", "src/replication/gossip.rs", "src/production/gossip_actor.rs",
-          "src/production/gossip_manager.rs", "src/production/adaptive_replication.rs", "src/replication/config.rs"], &coverage);
+          "src/production/gossip_manager.rs", "src/production/adaptive_replication.rs", "src/production/hotkey.rs", "src/replication/config.rs"], &coverage);
     ctx.out.extra.insert("audit".into(), audit());
     for i in 0..a.n {
         scenario(&mut ctx, &mut rng, thorough, i);
@@ -1475,7 +1734,13 @@ fn coverage(file: &str, item: &str) -> Option<&'static str> {
         // ---- adaptive_replication.rs
         ("adaptive_replication.rs", "AdaptiveConfig.base_rf" | "AdaptiveConfig.hot_key_rf" | "AdaptiveConfig.recalc_interval_ms" | "AdaptiveConfig.hotkey_config" | "AdaptiveConfig::high_throughput" | "AdaptiveConfig::low_latency") => "driven: ARF (default / both presets / random base_rf 0..4, hot_key_rf 0..7 incl. hot < base; recalc interval 1 and u64::MAX)",
         ("adaptive_replication.rs", "AdaptiveReplicationManager::new" | "AdaptiveReplicationManager::observe" | "AdaptiveReplicationManager::get_rf_for_key" | "AdaptiveReplicationManager::recalculate" | "AdaptiveReplicationManager::force_recalculate" | "AdaptiveReplicationManager::get_hot_key_updates" | "AdaptiveReplicationManager::clear" | "AdaptiveReplicationManager::hot_key_count") => "driven: ARF (the rf of every key and the replica list for that rf; the hot SET is the implementation's — the float-based detector is not modelled), promotion / clear oracle",
-        ("adaptive_replication.rs", "AdaptiveReplicationManager::is_hot" | "AdaptiveReplicationManager::get_top_hot_keys" | "AdaptiveReplicationManager::stats" | "AdaptiveReplicationManager::verify_invariants" | "AdaptiveStats.current_hot_keys" | "AdaptiveStats.total_promotions" | "AdaptiveStats.total_demotions" | "AdaptiveStats.tracked_keys" | "AdaptiveStats.base_rf" | "AdaptiveStats.hot_rf") => "NOT part of C19: float access rates and counters that no placement decision reads",
+        ("adaptive_replication.rs", "AdaptiveReplicationManager::is_hot" | "AdaptiveReplicationManager::stats" | "AdaptiveStats.current_hot_keys" | "AdaptiveStats.total_promotions" | "AdaptiveStats.total_demotions" | "AdaptiveStats.tracked_keys" | "AdaptiveStats.base_rf" | "AdaptiveStats.hot_rf") => "driven: AD* session (model Adaptive.Mgr: after every observe / force_recalculate / clear the tracked-key count, the override table, promotions, demotions; is_hot and get_rf_for_key of every pool key)",
+        ("adaptive_replication.rs", "AdaptiveReplicationManager::get_top_hot_keys" | "AdaptiveReplicationManager::verify_invariants") => "NOT part of C19: float access rates (sorting by f64) / a no-op in release builds",
+        // ---- hotkey.rs (reached through AdaptiveReplicationManager)
+        ("hotkey.rs", "HotKeyConfig.window_ms" | "HotKeyConfig.hot_threshold" | "HotKeyConfig.cleanup_interval_ms" | "HotKeyConfig.max_tracked_keys") => "driven: ADNEW (window 0..10000, integer thresholds 0..2^20, clean-up interval 0..5000, capacity 0 / 1 / 2 / 3 / ample)",
+        ("hotkey.rs", "HotKeyDetector::new" | "HotKeyDetector::record_access" | "HotKeyDetector::is_hot" | "HotKeyDetector::get_hot_keys" | "HotKeyDetector::cleanup_stale" | "HotKeyDetector::tracked_key_count" | "HotKeyDetector::clear") => "driven through AdaptiveReplicationManager: AD* session (model Adaptive.Detector)",
+        ("hotkey.rs", "AccessMetrics.read_count" | "AccessMetrics.write_count" | "AccessMetrics.first_access_ms" | "AccessMetrics.last_access_ms" | "AccessMetrics::access_rate") => "driven through is_hot / get_hot_keys: the comparison access_rate >= hot_threshold is modelled in integers (exact for integer thresholds <= 2^20 and 32-bit clocks, where the harness stays); the f64 rate itself is not compared",
+        ("hotkey.rs", "HotKeyDetector::get_top_keys" | "HotKeyDetector::get_metrics" | "HotKeyDetector::verify_invariants") => "NOT part of C19: f64 sorting / an accessor the manager does not use / a no-op in release builds",
         // ---- config.rs
         ("config.rs", "ConsistencyLevel::Eventual" | "ConsistencyLevel::Causal" | "ReplicationConfig.consistency_level" | "ReplicationConfig::with_causal_consistency") => "not read by placement / routing (C06's subject); both values occur in the builder shapes",
         ("config.rs", "ReplicationConfig.enabled" | "ReplicationConfig.replica_id" | "ReplicationConfig.peers" | "ReplicationConfig.partitioned_mode" | "ReplicationConfig.selective_gossip") => "driven: RCFG / LOOP (generated: replica_id 0..n+2 and u64::MAX, 0..n peers, all eight flag combinations)",
